@@ -17,6 +17,7 @@ func init() {
 }
 
 func checkC18(p *load.Program, r *kit.Report) {
+	importRules(p, r, "C01", "`on the current best chain` is relative to the branch with the most accumulated work: the work stored with a header is its own value, never shared with the header it forks from", 4, nil, "WORK-FLOW")
 	importRules(p, r, "C09", "the height reported for a verified proof is the label stored for the header's hash", 11, nil, "HEIGHT-LABEL")
 	importRules(p, r, "C08", "CheckHeader treats every entry of the hash→height map as a known header: a refused header must leave no entry", 12, nil, "NO-EFFECT-BEFORE-ERROR")
 	importRules(p, r, "C11", "a header the repository does not know must make the proof fail: load must not register the hashes of side branches it drops, or their headers verify as pruned history", 1,
@@ -243,6 +244,7 @@ func checkC18(p *load.Program, r *kit.Report) {
 }
 
 func checkC19(p *load.Program, r *kit.Report) {
+	importRules(p, r, "C09", "a peer's reply connects to a locator hash only if that hash is found at its true height: the labels Truncate/Connect/Consolidate write when Clean rebuilds the branches", 11, nil, "HEIGHT-LABEL")
 	importRules(p, r, "C17", "locators are built from the best chain: a descendant branch that survives the trim of an invalidated header keeps the invalidated chain as the tip the locator starts from", 2, nil, "TRIM-SHAPE")
 	importRules(p, r, "C11", "after a restart the best chain is what Branch.Save wrote: headers of an abandoned chain left in a branch file come back between the fork and the tip, and the locator names them", 2,
 		func(o *kit.Obligation) bool { return strings.HasPrefix(o.Construct, "Branch.Save") }, "MERGE-SHAPE")
